@@ -245,7 +245,9 @@ func prepare(level string, d Decl) (p *prepared) {
 		}
 	}()
 	switch level {
-	case "map", "struct":
+	case "helper":
+		// nothing to build: runtime.ReadSingleValue / ReadCollectionValue take the request's values
+	case "map", "mapptr", "struct":
 		sp, err := specParam(d)
 		if err != nil {
 			panic(err)
@@ -256,7 +258,10 @@ func prepare(level string, d Decl) (p *prepared) {
 			p.field = key
 		}
 		p.binder = middleware.NewUntypedRequestBinder(map[string]spec.Parameter{key: sp}, new(spec.Swagger), registryFor(d))
-	case "handler":
+		if level == "mapptr" {
+			p.binder.SetLogger(discardLogger{}) // the exported logging hook, set
+		}
+	case "handler", "routes", "serve":
 		method, path := "GET", "/op"
 		var consumes []string
 		if d.Loc == "path" {
@@ -280,8 +285,14 @@ func prepare(level string, d Decl) (p *prepared) {
 			got.params, _ = params.(map[string]interface{})
 			return map[string]string{"ok": "1"}, nil
 		}))
-		ctx := middleware.NewContext(doc, api, nil)
-		p.handler = ctx.APIHandler(nil)
+		switch level {
+		case "routes": // the handler without the spec/docs middlewares
+			p.handler = middleware.NewContext(doc, api, nil).RoutesHandler(nil)
+		case "serve": // the one-call constructor
+			p.handler = middleware.Serve(doc, api)
+		default:
+			p.handler = middleware.NewContext(doc, api, nil).APIHandler(nil)
+		}
 	default:
 		panic("unknown level " + level)
 	}
@@ -325,6 +336,60 @@ func (p *prepared) execute(q Req) (o obs, ok bool) {
 			o.GoType = fmt.Sprintf("%T", x)
 		}
 		o.V = normalise(x)
+	case "mapptr": // Bind with a pointer to the map (what the repository's own examples pass)
+		var rp middleware.RouteParams
+		if p.d.Loc == "path" {
+			rp = middleware.RouteParams{{Name: p.d.Name, Value: string(q.Texts[0])}}
+		}
+		data := map[string]interface{}{}
+		if err := p.binder.Bind(req, rp, runtime.JSONConsumer(), &data); err != nil {
+			return obs{Status: statusOf(err), Message: err.Error()}, true
+		}
+		o.Status = 200
+		x, present := data[p.d.Name]
+		o.Present = present
+		if present {
+			o.GoType = fmt.Sprintf("%T", x)
+		}
+		o.V = normalise(x)
+	case "helper":
+		// what a typed / hand-written binder does: pick the text(s) of the parameter out of the
+		// location's values with the exported helpers
+		var src runtime.Gettable
+		switch p.d.Loc {
+		case "path":
+			src = middleware.RouteParams{{Name: p.d.Name, Value: string(q.Texts[0])}}
+		case "query":
+			src = runtime.Values(req.URL.Query())
+		case "header":
+			src = runtime.Values(req.Header)
+		case "formU":
+			if err := req.ParseForm(); err != nil {
+				panic("harness: " + err.Error())
+			}
+			src = runtime.Values(req.PostForm)
+		case "formM":
+			if err := req.ParseMultipartForm(32 << 20); err != nil {
+				panic("harness: " + err.Error())
+			}
+			src = runtime.Values(req.MultipartForm.Value)
+		}
+		o.Status, o.Present = 200, true
+		if p.d.Type == "array" {
+			items := runtime.ReadCollectionValue(src, p.d.Name, p.d.CF)
+			o.GoType = "[]string"
+			l := make([]val, len(items))
+			for i, it := range items {
+				l[i] = sv(it)
+			}
+			o.V = val{K: "list", L: l}
+		} else {
+			o.GoType = "string"
+			o.V = sv(runtime.ReadSingleValue(src, p.d.Name))
+			if rp, isRoute := src.(middleware.RouteParams); isRoute && rp.Get(p.d.Name) != o.V.S {
+				o.V = sv("RouteParams.Get differs: " + rp.Get(p.d.Name))
+			}
+		}
 	case "struct":
 		var rp middleware.RouteParams
 		if p.d.Loc == "path" {
@@ -339,7 +404,7 @@ func (p *prepared) execute(q Req) (o obs, ok bool) {
 		x := reflect.ValueOf(data).Elem().FieldByName(p.field).Interface()
 		o.GoType = fmt.Sprintf("%T", x)
 		o.V = normalise(x)
-	case "handler":
+	case "handler", "routes", "serve":
 		*p.got = capture{}
 		rec := httptest.NewRecorder()
 		p.handler.ServeHTTP(rec, req)
@@ -361,3 +426,11 @@ func (p *prepared) execute(q Req) (o obs, ok bool) {
 	}
 	return o, true
 }
+
+// discardLogger satisfies logger.Logger.
+type discardLogger struct{}
+
+func (discardLogger) Printf(string, ...interface{}) {}
+func (discardLogger) Debugf(string, ...interface{}) {}
+
+func handlerLevel(level string) bool { return level == "handler" || level == "routes" || level == "serve" }
